@@ -496,3 +496,39 @@ func KXvKHeavy(all bool, emit func(p *ref.Pos)) {
 		}
 	}
 }
+
+// TwoQueensFamily: two queens of one colour (a promotion has happened) with an enemy slider on
+// every square and two own pieces (a knight and a pawn) on every pair of squares: a query that
+// walks over several targets of one kind must treat each on its own. all=false keeps the pawn on
+// the files and diagonals of the queens' neighbourhood (d- and h-file, 4th and 6th rank).
+func TwoQueensFamily(all bool, emit func(p *ref.Pos)) {
+	for _, white := range []bool{true, false} {
+		sign := int8(1)
+		if !white {
+			sign = -1
+		}
+		for _, slider := range []int8{ref.R, ref.B} {
+			for ss := 0; ss < 64; ss++ {
+				for ns := 0; ns < 64; ns++ {
+					for ps := 8; ps < 56; ps++ {
+						if !all && !(ps%8 == 3 || ps%8 == 7 || ps/8 == 3 || ps/8 == 5) {
+							continue
+						}
+						p := &ref.Pos{EP: -1, White: white}
+						p.Sq[sqi(6, 6)] = sign * ref.K  // g7
+						p.Sq[sqi(3, 5)] = sign * ref.Q  // d6
+						p.Sq[sqi(7, 3)] = sign * ref.Q  // h4
+						p.Sq[sqi(0, 1)] = -sign * ref.K // a2
+						if p.Sq[ss] != 0 || p.Sq[ns] != 0 || p.Sq[ps] != 0 || ss == ns || ss == ps || ns == ps {
+							continue
+						}
+						p.Sq[ss], p.Sq[ns], p.Sq[ps] = -sign*slider, sign*ref.N, sign*ref.P
+						if Valid(p) {
+							emit(p)
+						}
+					}
+				}
+			}
+		}
+	}
+}
